@@ -165,7 +165,9 @@ def run_canaries(res, names, extern_args):
         path = os.path.join(CACHE, 'gen', '%s_canary_%s.rs' % (res['unit'], nm))
         with open(path, 'w') as f:
             f.write(t)
-        r = engine.run_verus(path, extern_args, only_fn=nm, timeout=900)
+        mods = {(it.get('as') or it.get('rename') or it.get('fn')): it.get('module')
+                for it in res['ex'].unit.get('item', [])}
+        r = engine.run_verus(path, extern_args, only_fn=nm, only_mod=mods.get(nm), timeout=900)
         os.remove(path)
         hit = any('postcondition not satisfied' in d.get('message', '') for d in r['diags'])
         if hit:
@@ -329,8 +331,8 @@ def decide(prop, tier, seed):
         if v.get('needs_witness') and not (witness and witness.get('found')):
             # the function contains loops the sidecar has no invariant for; without a confirmed
             # witness the failed obligation only says "not proved"
-            undecided.append('%s failed but %s has unannotated loops at %s and no failing input was found'
-                             % (v['label'], v.get('fn'), ', '.join(v['needs_witness'])))
+            undecided.append('%s is not decided (%s) and no failing input was found on the real code'
+                             % (v['label'], ', '.join(v['needs_witness'])))
             continue
         payload = {'property': prop, 'obligation': v['label'], 'unit': v.get('unit'), 'function': v.get('fn'),
                    'engine': v.get('engine'), 'verifier_message': v['message'], 'clause': v.get('clause'),
@@ -350,7 +352,7 @@ def decide(prop, tier, seed):
         u, e = unit_undecided[0]
         raise Undecided(e.reason, e.detail)
     if undecided and rc == 0:
-        raise Undecided('unannotated-loop', '\n'.join(undecided))
+        raise Undecided('not-decided', '\n'.join(undecided))
     if stale and rc == 0:
         raise Undecided('known-finding-stale', '\n'.join(stale))
 
